@@ -127,6 +127,9 @@ func getSigBlock(f *os.File) (*zipslicer.Directory, []byte, error) {
 		return inz, nil, nil
 	}
 	// read signature block
+	if sigLoc > inz.DirLoc || inz.DirLoc-sigLoc < 32 {
+		return nil, nil, errMalformed
+	}
 	blob := make([]byte, inz.DirLoc-sigLoc)
 	if _, err := f.ReadAt(blob, sigLoc); err != nil {
 		return nil, nil, err
